@@ -163,6 +163,23 @@ def variants(quick: bool) -> List[Variant]:
     # the other name of the import is NOT visible
     out.append(Variant("import-as-hides-own-name", 'proto p\nimport base "lib.bitproto"\nmessage A {\n    lib.X f = 1\n}\n', (("A",), "f"), None, 4, {"lib.bitproto": LIB}))
     out.append(Variant("import-unqualified", 'proto p\nimport "lib.bitproto"\nmessage A {\n    X f = 1\n}\n', (("A",), "f"), None, 4, {"lib.bitproto": LIB}))
+    # ---- an imported file sees only its own definitions: a lookup that misses there must not go on into the scopes of the
+    # importing file (type, constant, import name), and its own definition wins over an earlier one of the importer
+    CH = "proto child\nmessage C {\n    %s f = 1\n}\n"
+    USE = ["message A {", I + "child.C c = 1", "}"]
+    out.append(Variant("import-child-sees-importer:type", "\n".join(["proto p"] + _enum("", "X", "w0", "Z0") + ['import "child.bitproto"'] + USE) + "\n", (("A",), "c"), None, 0, {"child.bitproto": CH % "X"}))
+    out.append(Variant("import-child-sees-importer:alias", "\n".join(["proto p", "type X = {U:w0}", 'import "child.bitproto"'] + USE) + "\n", (("A",), "c"), None, 0, {"child.bitproto": CH % "X"}))
+    out.append(Variant("import-child-sees-importer:const", "\n".join(["proto p", "const N = {n:c0}", 'import "child.bitproto"'] + USE) + "\n", (("A",), "c"), None, 0, {"child.bitproto": CH % "bool[N]"}))
+    out.append(Variant("import-child-sees-importer:import-name", "\n".join(["proto p", 'import "lib.bitproto"', 'import "child.bitproto"'] + USE) + "\n", (("A",), "c"), None, 0,
+                       {"child.bitproto": CH % "lib.X", "lib.bitproto": LIB}))
+    out.append(Variant("import-child-own-definition-wins", "\n".join(["proto p"] + _enum("", "X", "w0", "Z0") + ['import "child.bitproto"'] + USE) + "\n", (("A",), "c"), 9, 0,
+                       {"child.bitproto": "proto child\nenum X : uint9 {\n    Z = 0\n}\nmessage C {\n    X f = 1\n}\n"}))
+    # ---- a definition with an EMPTY body is a definition all the same: it is found, and it shadows the outer one
+    for outer in (False, True):
+        L = ["proto p"] + (_enum("", "X", "w0", "Z0") if outer else []) + ["message A {", I + "enum X : {U:w1} {", I + "}", I + "X f = 1", "}"]
+        out.append(Variant(f"empty-enum-innermost:{int(outer)}", "\n".join(L) + "\n", (("A",), "f"), "w1", 0))
+        L = ["proto p"] + (_enum("", "X", "w0", "Z0") if outer else []) + ["message A {", I + "message X {", I + "}", I + "X f = 1", "}"]
+        out.append(Variant(f"empty-message-innermost:{int(outer)}", "\n".join(L) + "\n", (("A",), "f"), 0, 0))
     # constants: innermost is file scope only (consts cannot nest), must precede the use
     out.append(Variant("const-before", "proto p\nconst N = {n:c0}\nmessage A {\n    bool[N] f = 1\n}\n", (("A",), "f"), "c0", 4))
     out.append(Variant("const-after", "proto p\nmessage A {\n    bool[N] f = 1\n}\nconst N = {n:c0}\n", (("A",), "f"), None, 3))
